@@ -312,7 +312,16 @@ fn section_has_rule_or_table(text: &str, line: usize) -> bool {
     let lines: Vec<&str> = text.lines().collect();
     // the converted section reaches to the next heading of the same or a higher level (its sub-sections go with it)
     let own = lines.get(line).map(|l| heading_level(l)).unwrap_or(0);
+    let mut in_code = false;
     for l in lines.iter().skip(line + 1) {
+        // `# …` lines inside a fenced code block are not headings
+        if l.trim_start().starts_with("```") {
+            in_code = !in_code;
+            continue;
+        }
+        if in_code {
+            continue;
+        }
         let h = heading_level(l);
         if h > 0 && (own == 0 || h <= own) {
             break;
